@@ -72,16 +72,69 @@ def quiet():
 
 # ------------------------------------------------------------------------------------------
 # schedule specifications  (JSON-able):  const / table (hours, kelvin) / func a + b*t + c*t*t
-def spec_args(spec, pkg='precip'):
+# The user's argument OBJECTS matter, not only their values: break points may come as lists, tuples, float or
+# integer numpy arrays, and the same objects are normally used for several specifications (constructor object of
+# one model, setter of the next, a sweep that re-applies the schedule).  Inside `shared_args()` every specification
+# of one input is made with the SAME argument objects, and afterwards they must still hold what the user wrote.
+CONTAINERS = ('list', 'f64', 'tuple', 'mixed', 'int')
+_POOL = {'on': False, 'objs': {}}
+
+
+@contextlib.contextmanager
+def shared_args():
+    prev = dict(_POOL)
+    _POOL['on'], _POOL['objs'] = True, {}
+    try:
+        yield _POOL['objs']
+    finally:
+        _POOL['on'], _POOL['objs'] = prev['on'], prev['objs']
+
+
+def _box(values, how):
+    if how in ('f64',):
+        return np.array(values, dtype=np.float64)
+    if how == 'tuple':
+        return tuple(values)
+    if how == 'int' and all(float(v).is_integer() for v in values):
+        return np.array([int(v) for v in values], dtype=np.int64)
+    return list(values)
+
+
+def make_args(spec, pkg):
     k = spec['kind']
     if k == 'const':
         return (spec['T'],)
     if k == 'table':
-        return (list(spec['hours']), list(spec['kelvin']))
+        c = spec.get('container', 'list')
+        return (_box(spec['hours'], 'f64' if c == 'mixed' else c), _box(spec['kelvin'], 'list' if c == 'mixed' else c))
     a, b, c = spec['a'], spec['b'], spec['c']
     if pkg == 'precip':
         return (lambda t: a + b * t + c * t * t,)
     return (lambda z, t: a + b * t + c * np.asarray(z, dtype=float),)
+
+
+def spec_args(spec, pkg='precip'):
+    if not _POOL['on']:
+        return make_args(spec, pkg)
+    key = (json.dumps({k: v for k, v in spec.items() if k != 'why'}, sort_keys=True), pkg)
+    if key not in _POOL['objs']:
+        _POOL['objs'][key] = (spec, make_args(spec, pkg))
+    return _POOL['objs'][key][1]
+
+
+def args_oracle(pool, site_of):
+    """the argument objects still hold what the user wrote"""
+    v = []
+    for (key, pkg), (spec, args) in pool.items():
+        if spec['kind'] != 'table':
+            continue
+        for name, obj, want in (('times (hours)', args[0], spec['hours']), ('temperatures', args[1], spec['kelvin'])):
+            now = [float(x) for x in obj]
+            if now != [float(x) for x in want]:
+                v.append(('arguments_unchanged', site_of(pkg), type(obj).__name__,
+                          'the %s the user passed (%s %r) read %r after the specification was made' % (name, type(obj).__name__, [float(x) for x in want][:4], now[:4])))
+                break
+    return v
 
 
 def coq_args(spec, pkg='precip'):
@@ -105,6 +158,8 @@ def coq_tp(spec, route, prev=None):
         return '(ctor Qops %s)' % coq_args(spec)
     if route == 'setter':
         return '(via_setter Qops %s)' % coq_args(spec)
+    if route == 'twice':
+        return '(setTemperatureParameters Qops (ctor Qops %s) %s)' % (coq_args(spec), coq_args(spec))
     return '(setTemperatureParameters Qops (ctor Qops %s) %s)' % (coq_args(prev), coq_args(spec))
 
 
@@ -113,6 +168,8 @@ def coq_dk(spec, route, prev=None):
         return '(dctor Qops %s)' % coq_args(spec, 'diff')
     if route == 'setter':
         return '(dvia_setter Qops (dctor Qops DA0) %s)' % coq_args(spec, 'diff')
+    if route == 'twice':
+        return '(dvia_setter Qops (dctor Qops %s) %s)' % (coq_args(spec, 'diff'), coq_args(spec, 'diff'))
     return '(dvia_setter Qops (dctor Qops %s) %s)' % (coq_args(prev, 'diff'), coq_args(spec, 'diff'))
 
 
@@ -124,14 +181,14 @@ def build_tp(pkg, spec, route, prev=None):
         with quiet():
             if route == 'ctor':
                 return TP(*spec_args(spec))
-            tp = TP() if route == 'setter' else TP(*spec_args(prev))
+            tp = TP() if route == 'setter' else TP(*spec_args(spec if route == 'twice' else prev))
             tp.setTemperatureParameters(*spec_args(spec))      # what model.setTemperature(*args) calls
             return tp
     from kawin.diffusion.DiffusionParameters import TemperatureParameters as DTP
     args = spec_args(spec, 'diff')
     if route == 'ctor':
         return DTP(*args)
-    tp = DTP() if route == 'setter' else DTP(*spec_args(prev, 'diff'))
+    tp = DTP() if route == 'setter' else DTP(*spec_args(spec if route == 'twice' else prev, 'diff'))
     # what DiffusionModel.setTemperature / setTemperatureArray / setTemperatureFunction call
     {'const': tp.setIsothermalTemperature, 'table': tp.setTemperatureArray, 'func': tp.setTemperatureFunction}[spec['kind']](*args)
     return tp
@@ -205,7 +262,8 @@ def gen_spec(rng, exact=None):
             j = int(rng.integers(0, n - 1))
             kel[j + 1] = kel[j]                       # a hold
         hours = np.concatenate(([h0], h0 + np.cumsum(inc)))
-        return {'kind': 'table', 'hours': [float(x) for x in hours], 'kelvin': [float(x) for x in kel], 'exact': exact}
+        return {'kind': 'table', 'hours': [float(x) for x in hours], 'kelvin': [float(x) for x in kel], 'exact': exact,
+                'container': str(rng.choice(CONTAINERS, p=[0.3, 0.35, 0.1, 0.15, 0.1]))}
     if exact:
         return {'kind': 'func', 'a': float(rng.integers(600, 900)), 'b': float(rng.choice([-0.25, -0.03125, 0.0, 0.0625, 0.5])),
                 'c': float(rng.choice([0.0, 2.0 ** -14, -2.0 ** -15])), 'exact': True}
@@ -233,13 +291,14 @@ def gen_times(rng, spec):
 
 # ------------------------------------------------------------------------------------------
 # (a) schedule evaluation: implementation, oracle, model
-ROUTES = ('ctor', 'setter', 'reset')
+ROUTES = ('ctor', 'setter', 'reset', 'twice')       # twice: the same specification applied again to the object
 
 
 def eval_route(pkg, spec, route, prev, times, z):
     out = {'route': route}
     try:
         tp = build_tp(pkg, spec, route, prev)
+        out['tp'] = tp
         out['flag'] = getattr(tp, '_isIsothermal', None) if pkg == 'precip' else None
         if pkg == 'precip':
             out['vals'] = [float(tp(t)) for t in times]
@@ -289,6 +348,13 @@ def sched_oracle(case, res):
         if pkg == 'precip' and r['flag'] != base['flag']:
             v.append(('ctor_eq_setter', site, 'flag',
                       '%s schedule: _isIsothermal is %r through the %s route and %r through the %s route' % (spec['kind'], base['flag'], base['route'], r['flag'], r['route'])))
+    for r in res:
+        if r.get('stable') is False:
+            v.append(('schedule_value', site, 'changed by a later specification',
+                      '%s schedule (%s route, %s arguments) evaluates differently after the same arguments were used for another specification'
+                      % (spec['kind'], r['route'], spec.get('container', 'list'))))
+            break
+    v += res[0].get('arg_hits', [])
     if pkg == 'precip':
         want = spec['kind'] == 'const'
         for r in res:
@@ -308,7 +374,23 @@ def gen_sched_case(rng):
 
 
 def run_sched_case(case):
-    return [eval_route(case['pkg'], case['spec'], r, case['prev'], case['times'], case['z']) for r in ROUTES]
+    """all routes with the SAME argument objects, one after the other; afterwards every object is evaluated again
+    (a specification made later must not change one made earlier) and the arguments are inspected"""
+    pkg, times, z = case['pkg'], case['times'], case['z']
+    with shared_args() as pool:
+        res = [eval_route(pkg, case['spec'], r, case['prev'], times, z) for r in ROUTES]
+        for r in res:
+            tp = r.pop('tp', None)
+            if r['err'] is None:
+                try:
+                    again = [float(tp(t)) for t in times] if pkg == 'precip' else [[float(v) for v in np.atleast_1d(tp(np.array(z), t))] for t in times]
+                except Exception as e:
+                    again = type(e).__name__
+                r['stable'] = again == r['vals']
+        arg_hits = args_oracle(pool, lambda k: SITE_TP if k == 'precip' else SITE_DTP)
+    if res:
+        res[0]['arg_hits'] = arg_hits
+    return res
 
 
 def sched_terms(case, res):
@@ -1126,8 +1208,18 @@ def fluxes_ast_check():
 
 # ------------------------------------------------------------------------------------------
 # one input (generated, corpus or replay) through implementation + oracle
+def set_containers(cfg, i):
+    """how the break points of every table in this input are handed over (list / tuple / float array / integer array)"""
+    cyc = ('f64', 'list', 'mixed', 'f64', 'tuple', 'int')
+    for j, sp in enumerate([cfg['spec']] if 'spec' in cfg else [st['spec'] for st in cfg['stages']]):
+        if sp['kind'] == 'table' and 'container' not in sp:
+            sp['container'] = cyc[(i + j) % len(cyc)]
+    return cfg
+
+
 def check_input(case):
-    """returns (oracle hits [(clause, site, cls, msg)], artefacts for the correspondence)"""
+    """returns (oracle hits [(clause, site, cls, msg)], artefacts for the correspondence); every specification made
+    for one input uses the same argument objects (see shared_args)"""
     t = case['type']
     if t == 'sched':
         res = run_sched_case(case)
@@ -1135,32 +1227,24 @@ def check_input(case):
     if t == 'ops':
         rig = run_seq(case)
         return [(c, SITE_LK, cls, msg) for (c, cls, msg, k) in rig.hits[:1]], {'rig': rig}
-    if t == 'run':
-        a = run_model(case, 'ctor')
-        b = run_model(case, 'setter')
-        hits = list(a['hits'])
-        hits += [h for h in b['hits'] if not any(x[0] == h[0] and x[2] == h[2] for x in hits)]
-        hits += pair_oracle(case, a, b)
-        return hits, {'a': a, 'b': b}
-    if t == 'stages':
-        # the same staged treatment twice: first specification through the constructor object / the setter, later
-        # ones through two different (equivalent) ways: every step must carry the schedule in force, the two runs
-        # must be identical
-        a = run_model(case, 'ctor', case['hows_a'])
-        b = run_model(case, 'setter', case['hows_b'])
-        hits = list(a['hits'])
-        hits += [h for h in b['hits'] if not any(x[0] == h[0] and x[2] == h[2] for x in hits)]
-        hits += pair_oracle(case, a, b)
-        return hits, {'a': a, 'b': b}
-    if t == 'diff':
-        a = run_diff(case, 'ctor')
-        b = run_diff(case, 'setter')
-        return diff_oracle(case, a, b), {'a': a, 'b': b}
-    if t == 'dstages':
-        a = run_diff(case, 'ctor', case['hows_a'])
-        b = run_diff(case, 'setter', case['hows_b'])
-        return diff_oracle(case, a, b), {'a': a, 'b': b}
-    raise ValueError('unknown input type %r' % t)
+    with shared_args() as pool:
+        if t in ('run', 'stages'):
+            # the same (staged) treatment twice: first specification through the constructor object / the setter, later
+            # ones through two different (equivalent) ways: every step must carry the schedule in force, the two runs
+            # must be identical
+            a = run_model(case, 'ctor', case.get('hows_a'))
+            b = run_model(case, 'setter', case.get('hows_b'))
+            hits = list(a['hits'])
+            hits += [h for h in b['hits'] if not any(x[0] == h[0] and x[2] == h[2] for x in hits)]
+            hits += pair_oracle(case, a, b)
+        elif t in ('diff', 'dstages'):
+            a = run_diff(case, 'ctor', case.get('hows_a'))
+            b = run_diff(case, 'setter', case.get('hows_b'))
+            hits = diff_oracle(case, a, b)
+        else:
+            raise ValueError('unknown input type %r' % t)
+        hits += args_oracle(pool, lambda k: SITE_TP if k == 'precip' else SITE_DTP)
+    return hits, {'a': a, 'b': b}
 
 
 def corpus_cases():
@@ -1314,6 +1398,7 @@ def run(ctx):
                      'maxsteps': 250 if quick else 1500, 'beta2': False})
     # several solve() calls with the specification changed in between (constant -> constant, schedule -> constant, ...)
     runs += [gen_stages(rng, quick, i) for i in range(6 if quick else 32)]
+    runs = [set_containers(c, i) for i, c in enumerate(runs)]
     terms, meta = [], []
     for c in runs:
         hits, art = check_input(c)
@@ -1322,6 +1407,7 @@ def run(ctx):
         ctx.cov['traces_validated_against_impl'] += 2
         ctx.hist('type', c['type'])
         ctx.hist('run', c['shape'] + ':' + c['solver'] + ':%dph' % len(c['phases']))
+        ctx.hist('containers', ','.join(sorted(set(sp.get('container', '-') for sp in ([c['spec']] if 'spec' in c else [st['spec'] for st in c['stages']]) if sp['kind'] == 'table'))) or 'no table')
         ctx.notes['run_steps'] = ctx.notes.get('run_steps', 0) + a['n'] + b['n']
         ctx.notes['run_rebuilds'] = ctx.notes.get('run_rebuilds', 0) + a['rig'].rebuilds + b['rig'].rebuilds
         report(ctx, c, hits)
@@ -1390,7 +1476,7 @@ def run(ctx):
         nhits += len(hits)
 
     for i in range(3 if quick else 16):
-        c = gen_dstages(rng, i)
+        c = set_containers(gen_dstages(rng, i), i)
         hits, art = check_input(c)
         ctx.count(c, True)
         ctx.hist('type', 'dstages')
